@@ -18,28 +18,50 @@ META = {
     "pixel), arithmetic, astype and pickling, on either location path of the CRS coordinate, the recovered "
     "GeoBox maps the centre of every kept pixel to the world position of the original pixel it came from and "
     "its coordinates are the array labels; reprojection output recovers exactly the destination GeoBox, has no "
-    "SPATIAL_ATTRIBUTES key and grid_mapping=spatial_ref (DataArray and Dataset).  Tied to /repo and to the "
-    "real xarray on every run by an exact correspondence (dyadic geoboxes x ranks x numpy/dask x random op "
-    "sequences; exhaustive numpy validation of the slice spec) and by a pixel-location oracle on arbitrary "
-    "doubles, GCP boxes and real xr_reproject runs over CRS pairs.",
+    "SPATIAL_ATTRIBUTES key and grid_mapping=spatial_ref (DataArray and Dataset).  Growth round: the PUBLIC entry "
+    "points from their arguments to their result — xr_reproject / .odc.reproject / .odc.output_geobox with a CRS "
+    "destination are composed with the C11 model (Props/C09C11: options travel unchanged through the keyword "
+    "dictionary, the destination is the grid compute_output_geobox gives for the RECOVERED source GeoBox, the GeoBox "
+    "recovered from the result is that grid, covers the projected footprint box up to tol; DataArray, Dataset, "
+    "wrap+history with no intermediate hypothesis); wrap_xr / xr_zeros argument forms (axis default, implicit new "
+    "axis, the three asserts, time= forms, nodata, crs_coord_name=None) are modelled and proved to give the dims "
+    "shape every theorem needs; recovery without axis labels (GeoTransform path), CRS in attributes, "
+    "grid_mapping in attrs, .odc.nodata and the .geobox compatibility property are modelled and tied.  Tied to "
+    "/repo and to the real xarray on every run by an exact correspondence (dyadic geoboxes x ranks x numpy/dask x "
+    "random op sequences; exhaustive numpy validation of the slice spec; the OPTION MATRIX tight x anchor x "
+    "resolution x shape x own/other CRS through xr_reproject for both container types; ranks 1..5 x axis x time "
+    "forms through wrap_xr) and by a pixel-location oracle on arbitrary doubles, GCP boxes and real xr_reproject "
+    "runs over CRS pairs.",
     "note": "Assumed: xarray keeps index-coordinate values/encoding/attrs under isel/arith/astype/pickle "
-    "(exercised each run); GCP polynomial fit is a function of the exported point set (equivariance under the "
-    "pixel-side affine is an explicit hypothesis; sampled numerically).  Exact arithmetic; doubles are sampled "
-    "with 1e-9 relative slack (exact == fails by ulps for non-dyadic resolutions).  Integer-indexing a spatial "
-    "axis of a >2-D array is outside the statement (the accessor raises TypeError there) and not generated.  "
-    "Model follows the code as repaired on branch fix-C09 (4 fix commits).",
+    "(exercised each run) and validates coordinates against dimensions when a DataArray is built; GCP polynomial "
+    "fit is a function of the exported point set (equivariance under the pixel-side affine is an explicit "
+    "hypothesis; sampled numerically).  Exact arithmetic; doubles are sampled with 1e-9 relative slack (exact == "
+    "fails by ulps for non-dyadic resolutions); in the args->result stream the affine is elided where doubles are "
+    "not exact (shape requests; tight / floating origins taken verbatim from the pyproj footprint once they pass "
+    "through axis labels).  pyproj-derived inputs of the destination grid (footprint box, centre-pixel fit, unit "
+    "equality, resolution of rotated boxes) are captured from the real run (spies of harness/c11.py at public names; "
+    "when the fit is not intercepted the exact comparison of fit requests is skipped with a note).  Integer-indexing "
+    "a spatial axis of a >2-D array is outside the statement.  xr_reproject_crs_history is proved for axis-aligned "
+    "sources (rotated sources: xr_reproject_crs_geobox with the explicit side condition on the identity path).  "
+    "Known-finding candidates reported, not claimed: xr_zeros(time=<str>) sizes the array by len(str) "
+    "(xr_zeros_scalar_time_cex); GeoTransform is stale after slicing when labels are dropped "
+    "(dropped_coords_stale_cex).",
     "technique": "Lean 4 proof over hand model + differential correspondence with real code and real xarray",
-    "inventory": "Modelled (Model/C09.lean): spatial_dims, _mk_crs_coord/_extract_crs/_extract_geo_transform/_extract_gcps (as the parsed "
-    "CrsCoord record), _coord_to_xr/_mk_pixel_coord/xr_coords (linear + GCP), wrap_xr (crs_coord_name given or None), assign_crs, "
-    "_locate_crs_coords, data_resolution_and_offset, affine_from_axis, resolution_from_affine (ST branch), is_affine_st / "
-    "_confirm_axis_aligned, _extract_transform, _locate_geo_info, GCPGeoBox.gcps, GeoBox.coordinates, _extract_output_geobox_params, "
-    "_xr_reproject_da assembly, _xr_reproject_ds/_maybe_reproject, xarray isel/arith/astype/pickle/copy as ops.  NOT modelled: "
-    "_get_crs_from_attrs beyond the coordinate attrs (data-variable / Dataset 'crs' strings, several candidates), the attrs fallback of "
-    "grid_mapping as a separate path, resolution_from_affine's rotated branch (decompose_rws, needs sqrt; proved unreachable from wrap), "
-    "Poly2d.fit / GCPMapping (pix2wld of GCP boxes: sampled), xr_zeros (thin wrapper, exercised as a route), mask / crop / rasterize / "
-    "colorize / to_rgba / explore / write_cog wrappers (not part of the claim), ODCExtension accessor caching (exercised through the "
-    "touched-accessor round trips), nodata value handling (maybe_int of dst_nodata), the warp itself (rio_reproject / _dask_rio_reproject), "
-    "the Dataset-level merged view is modelled (dsView) but has no theorem yet (correspondence only).",
+    "inventory": "Modelled (Model/C09.lean, C09Reproject.lean, C09Glue.lean): spatial_dims, _mk_crs_coord/_extract_crs/"
+    "_extract_geo_transform/_extract_gcps (as the parsed CrsCoord record), _coord_to_xr/_mk_pixel_coord/xr_coords (linear + GCP), "
+    "wrap_xr (all keyword forms: axis, time scalar/list/DataArray, nodata, crs_coord_name None, rank asserts), xr_zeros, assign_crs, "
+    "_locate_crs_coords (encoding then attrs grid_mapping), data_resolution_and_offset, affine_from_axis, resolution_from_affine "
+    "(ST branch), is_affine_st, _extract_transform (labels path, 1-pixel fallbacks, and the no-coordinate GeoTransform path), "
+    "_locate_geo_info, _get_crs_from_attrs (candidate order over array / coordinate / Dataset attrs, parse failures, CRS objects, the "
+    "set semantics), GCPGeoBox.gcps, GeoBox.coordinates, xr_reproject (kw dict construction, defaults), _extract_output_geobox_params, "
+    "ODCExtension.output_geobox, _xr_reproject_da (guards, destination from GeoBox or CRS, src_nodata/dst_nodata defaulting as "
+    "presence flags, assembly), _xr_reproject_ds/_maybe_reproject (incl. per-variable CRS guard and keyword travel), "
+    "ODCExtensionDa.nodata, _xarray_geobox/register_geobox, xarray isel/arith/astype/pickle/copy/drop_vars as ops.  NOT modelled: "
+    "resolution_from_affine's rotated branch (decompose_rws, needs sqrt; enters as a captured witness), Poly2d.fit / GCPMapping "
+    "(pix2wld of GCP boxes: sampled), GCP sources through xr_reproject(<CRS>) (model branch exists, not generated), mask / crop / "
+    "rasterize / colorize / to_rgba / explore / write_cog wrappers (not part of the claim), ODCExtension accessor caching (exercised "
+    "through the touched-accessor round trips), the VALUE of nodata (maybe_int of dst_nodata), the warp itself (rio_reproject / "
+    "_dask_rio_reproject), ydim/xdim for non-adjacent spatial dims beyond the assert, non-numeric spatial coordinates (TypeError).",
     "design_ref": "DESIGN.md §4 C09",
 }
 
@@ -70,23 +92,47 @@ def aff_s(A) -> str:
     return ";".join(frac_s(v) for v in tuple(A)[:6])
 
 
-def gcp_pts_s(m) -> str:
-    return "|".join(";".join(frac_s(float(v)) for v in (p[0], p[1], w[0], w[1])) for p, w in zip(m._pix, m._wld))
+def is_gcp(g) -> bool:
+    from odc.geo.gcp import GCPGeoBox
+
+    return isinstance(g, GCPGeoBox)
+
+
+def gcp_private(g):
+    """(pixel points, world points, pixel-side affine) of a GCPGeoBox read from its private attributes — the model's view of
+    a GCP box; `None` when those attributes are not there (the exact GCP stream is then skipped, the public-API
+    oracles stay)"""
+    m = getattr(g, "_mapping", None)
+    A = getattr(g, "_affine", None)
+    pix, wld = getattr(m, "_pix", None), getattr(m, "_wld", None)
+    if m is None or A is None or pix is None or wld is None:
+        return None
+    return pix, wld, A
+
+
+def gcp_pts_s(pix, wld) -> str:
+    return "|".join(";".join(frac_s(float(v)) for v in (p[0], p[1], w[0], w[1])) for p, w in zip(pix, wld))
 
 
 def rec_s(r) -> str:
     if r is None:
         return "none"
     ny, nx = r.shape
-    if hasattr(r, "_mapping"):
-        return f"G {ny} {nx} {aff_s(r._affine)} {crs_s(r.crs)} {gcp_pts_s(r._mapping)}"
+    if is_gcp(r):
+        pv = gcp_private(r)
+        if pv is None:
+            return f"G {ny} {nx} ? {crs_s(r.crs)} ?"
+        return f"G {ny} {nx} {aff_s(pv[2])} {crs_s(r.crs)} {gcp_pts_s(pv[0], pv[1])}"
     return f"L {ny} {nx} {aff_s(r.affine)} {crs_s(r.crs)}"
 
 
 def src_s(g) -> str:
     ny, nx = g.shape
-    if hasattr(g, "_mapping"):
-        return f"G:{ny}:{nx}:{aff_s(g._affine)}:{crs_s(g.crs)}:{gcp_pts_s(g._mapping)}"
+    if is_gcp(g):
+        pv = gcp_private(g)
+        if pv is None:
+            return f"G:{ny}:{nx}:?:{crs_s(g.crs)}:?"
+        return f"G:{ny}:{nx}:{aff_s(pv[2])}:{crs_s(g.crs)}:{gcp_pts_s(pv[0], pv[1])}"
     return f"L:{ny}:{nx}:{aff_s(g.affine)}:{crs_s(g.crs)}"
 
 
@@ -110,8 +156,16 @@ def arr_s(xx) -> str:
     return f"{rec_s(xx.odc.geobox)} {list_s(xx.dims)} {lab} {opt_s(xx.encoding.get('grid_mapping'))}"
 
 
-def out_s(xx) -> str:
-    return (f"{rec_s(xx.odc.geobox)} {list_s(xx.dims)} {list_s(sorted(map(str, xx.attrs)))} "
+def rec_noaff_s(r) -> str:
+    """recovered linear geobox with the affine elided (shape requests: span / n is not exact in doubles)"""
+    if r is None or is_gcp(r):
+        return rec_s(r)
+    ny, nx = r.shape
+    return f"L {ny} {nx} * {crs_s(r.crs)}"
+
+
+def out_s(xx, full=True) -> str:
+    return (f"{rec_s(xx.odc.geobox) if full else rec_noaff_s(xx.odc.geobox)} {list_s(xx.dims)} {list_s(sorted(map(str, xx.attrs)))} "
             f"{opt_s(xx.encoding.get('grid_mapping'))} {list_s(sorted(map(str, xx.coords)))}")
 
 
@@ -368,7 +422,7 @@ def float_geobox(rng, Affine, GeoBox, kind):
     return GeoBox((ny, nx), A, crs)
 
 
-def gcp_geobox(rng, mods, exact):
+def gcp_geobox(rng, mods, exact, allow_slice=True):
     Affine, GeoBox, GCPGeoBox, GCPMapping, oxr, xy_ = mods
     ny, nx = rng.choice([4, 6, 9]), rng.choice([5, 8, 10])
     crs = rng.choice(["EPSG:4326", "EPSG:32633"])
@@ -382,7 +436,7 @@ def gcp_geobox(rng, mods, exact):
         wld = [(100 + 0.2 * x + k * x * y, 50 - 0.2 * y + k * x * x) for x, y in pix]
     m = GCPMapping(np.asarray(pix, dtype="float64"), np.asarray(wld, dtype="float64"), crs)
     g = GCPGeoBox((ny, nx), m)
-    if rng.random() < 0.5:
+    if allow_slice and rng.random() < 0.5:
         y0, x0 = rng.randint(0, ny - 2), rng.randint(0, nx - 2)
         g = g[y0:rng.randint(y0 + 1, ny), x0:rng.randint(x0 + 1, nx)]
     return g
@@ -404,7 +458,7 @@ ST_TOL = 1e-10  # documented tolerance of is_affine_st: below it a box is *treat
 
 
 def klass(g) -> str:
-    if hasattr(g, "_mapping"):
+    if is_gcp(g):
         return "gcp"
     A = g.affine
     if abs(A.b) < ST_TOL and abs(A.d) < ST_TOL:
@@ -414,7 +468,7 @@ def klass(g) -> str:
 
 def band_allow(g):
     """world displacement the documented 1e-10 tolerance of is_affine_st may cause (0 unless 0 < |b|,|d| < 1e-10)"""
-    if hasattr(g, "_mapping"):
+    if is_gcp(g):
         return Fraction(0)
     A = g.affine
     if abs(A.b) < ST_TOL and abs(A.d) < ST_TOL and (A.b != 0 or A.d != 0):
@@ -534,12 +588,18 @@ def roundtrip_eq_oracle(R: Run, g, xx, case, exact):
     if cls == "gcp":
         # equality of GCP geoboxes is by identity of the mapping (shared finding K2, owned by C19):
         # compare shape, pixel transform and the GCP point set instead
-        ok = (tuple(r.shape) == tuple(g.shape) and r.crs == g.crs
-              and all(abs(a - b) < 1e-9 for a, b in zip(tuple(r._affine)[:6], (1, 0, 0, 0, 1, 0)))
-              and np.allclose(r._mapping._wld, g._mapping._wld, rtol=1e-12, atol=0)
-              and np.allclose(r._mapping._pix,
-                              np.asarray([(~g._affine) * tuple(p) for p in g._mapping._pix]), rtol=1e-12, atol=1e-12))
-        R.oracle(ok, key, case, f"recovered {r!r} pix={r._mapping._pix.tolist()[:3]} differs from the original GCP box")
+        # through the public API: the control points exported in the pixel frame of each box must coincide
+        def pts(b):
+            return np.asarray([(p.row, p.col, p.x, p.y) for p in b.gcps()], dtype="float64")
+
+        try:
+            pr, pg = pts(r), pts(g)
+            ok = (is_gcp(r) and tuple(r.shape) == tuple(g.shape) and r.crs == g.crs and pr.shape == pg.shape
+                  and np.allclose(pr, pg, rtol=1e-12, atol=1e-9))
+            what = f"recovered {r!r} control points {pr.tolist()[:2]} differ from the original's {pg.tolist()[:2]}"
+        except Exception as e:  # pylint: disable=broad-except
+            ok, what = False, f"comparing control points raised {e!r}"
+        R.oracle(ok, key, case, what)
         return
     inband = band_allow(g) > 0
     if exact and not inband:
@@ -595,10 +655,15 @@ def run(R: Run):
 
     # --- exact stream: wrap -> ops -> recover, compared with the model
     kinds = ["north-up", "mirrored", "rotated", "sheared", "gcp", "tiny-rot", "small-angle"]
+    exact_kinds = list(kinds)
+    if gcp_private(gcp_geobox(__import__("random").Random(1), mods, exact=True)) is None:
+        exact_kinds.remove("gcp")
+        R.notes.append("private attributes of GCPGeoBox / GCPMapping (_mapping, _affine, _pix, _wld) not found: the exact GCP "
+                       "correspondence stream is skipped; GCP boxes stay covered by the public-API oracles of the float stream")
     small_shapes = [(1, 1), (1, 5), (5, 1), (2, 2), (1, 2), (2, 1), (3, 4)]
     cases = [(k, s) for k in kinds[:4] + ["tiny-rot"] for s in small_shapes]
     for _ in range(R.pick(300, 3000)):
-        cases.append((rng.choice(kinds), None))
+        cases.append((rng.choice(exact_kinds), None))
     names = ["spatial_ref", "spatial_ref", "crs", "foo", "ref_1"]
     for kind, shp in cases:
         if kind == "gcp":
@@ -677,8 +742,14 @@ def run(R: Run):
 
     # --- reprojection output assembly
     reproject_part(R, mods)
+    # --- reprojection to a CRS: arguments -> output grid -> assembled result (C09 x C11)
+    reproject_crs_part(R, mods)
     # --- option forwarding
     options_part(R, mods)
+    # --- argument forms of the registration entry points
+    wrap_args_part(R, mods)
+    # --- recovery paths outside wrap_xr's own output
+    recovery_glue_part(R, mods)
 
     R.assumptions.append(
         "xarray keeps index-coordinate values, attrs and encoding of kept coordinates under isel / arithmetic / "
@@ -702,9 +773,7 @@ def corpus(R: Run, mods):
                 R.oracle(False, "roundtrip-eq|rotated|1px|raises", case, repr(e))
     # GCP array sliced to one row
     rng = __import__("random").Random(5)
-    g = gcp_geobox(rng, mods, exact=False)
-    while g._affine != Affine.identity():
-        g = gcp_geobox(rng, mods, exact=False)
+    g = gcp_geobox(rng, mods, exact=False, allow_slice=False)
     ny, nx = g.shape
     for ops in ([("s", g.dimensions[0], ny - 1, ny, None)], [("s", g.dimensions[1], 2, 3, None)],
                 [("s", g.dimensions[0], 1, 2, None), ("s", g.dimensions[1], 3, 1, -1)]):
@@ -735,6 +804,613 @@ def corpus(R: Run, mods):
 SPATIAL = ("crs", "crs_wkt", "grid_mapping", "gcps", "epsg")
 
 
+# ------------------------------------------------------------------ argument forms of wrap_xr / xr_zeros / .odc.nodata / .geobox
+def w_s(xx) -> str:
+    return f"{arr_s(xx)} {list_s(sorted(map(str, xx.attrs)))} {list_s(sorted(map(str, xx.coords)))}"
+
+
+def wrap_args_part(R: Run, mods):
+    """wrap_xr(im, gbox, time=, nodata=, crs_coord_name=, axis=, **attrs) and xr_zeros(gbox, time=, ...) over their argument
+    forms: every rank 1..5, axis in {absent, -1, 0, 1, 2}, time in {absent, scalar str, list, DataArray} of matching and
+    non-matching length, nodata given or not, CRS-coordinate name given or None; accepted combinations must round-trip."""
+    import xarray as xr
+
+    Affine, GeoBox, GCPGeoBox, GCPMapping, oxr, xy_ = mods
+    rng = R.rng
+    g0 = GeoBox((3, 4), Affine(2, 0, 10, 0, -2, 20), "EPSG:3857")
+    g1 = GeoBox((2, 5), Affine(0.25, 0, 14, 0, -0.25, 50), "EPSG:4326")
+    g2 = GeoBox((3, 2), Affine(3, 4, 100, 4, -3, 200), "EPSG:32633")
+    boxes = [g0, g1, g2]
+
+    def time_arg(tok):
+        if tok == "N":
+            return None
+        k, n = tok.split(":")
+        if k == "s":
+            return "2020-01-01"
+        vals = [f"2020-01-{i + 1:02d}" for i in range(int(n))]
+        if k == "l":
+            return vals
+        return xr.DataArray(np.asarray(vals, dtype="datetime64[ns]"), dims=("time",))
+
+    cases = []
+    # exhaustive small matrix on one box: ranks x axis x time forms
+    ny, nx = g0.shape
+    shapes = [(nx,), (ny, nx), (nx, ny), (1, ny, nx), (2, ny, nx), (ny, nx, 2), (ny, nx, 1), (2, ny, nx, 3), (ny, nx, 2, 2), (2, 2, ny, nx), (1, 2, ny, nx, 1)]
+    for shape in shapes:
+        for axis in (None, -1, 0, 1, 2):
+            for ttok in ("N", "s:10", "l:1", "l:2", "l:3", "d:2", "d:1"):
+                cases.append((g0, shape, ttok, axis, False, "spatial_ref", []))
+    for _ in range(R.pick(60, 600)):
+        g = rng.choice(boxes)
+        ny, nx = g.shape
+        nt = rng.choice([None, 1, 2, 3])
+        nb = rng.choice([None, None, 1, 2])
+        shape = (*(() if nt is None else (nt,)), ny, nx, *(() if nb is None else (nb,)))
+        if rng.random() < 0.15:
+            shape = tuple(rng.choice([ny, nx, 1, 2]) for _ in range(rng.randint(1, 4)))
+        ttok = rng.choice(["N", "N", "s:10", f"l:{nt or 1}", f"l:{rng.randint(1, 3)}", f"d:{nt or 1}"])
+        axis = rng.choice([None, None, None, 0, 1])
+        cases.append((g, shape, ttok, axis, rng.random() < 0.4, rng.choice(["spatial_ref", "crs", None]),
+                      [k for k in ("nodata", "units", "keep") if rng.random() < 0.3]))
+    for g, shape, ttok, axis, nodata, cn, attrs in cases:
+        line = (f"c09 wrapxr {src_s(g)} {list_s(shape)} {ttok} {opt_s(axis)} {'T' if nodata else 'F'} {opt_s(cn)} {list_s(attrs)}")
+        box = []
+        nd_val = rng.choice([0, 0.0, 7])  # falsy but meaningful values included
+
+        def f():
+            kw = {} if axis is None else {"axis": axis}
+            if nodata:
+                kw["nodata"] = nd_val
+            xx = oxr.wrap_xr(np.zeros(shape, dtype="uint8"), g, time=time_arg(ttok), crs_coord_name=cn, **kw,
+                             **{k: (3 if k == "nodata" else "v") for k in attrs if not (k == "nodata" and nodata)})
+            box.append(xx)
+            return w_s(xx)
+
+        got = R.corr(line, f, sig=f"wrapxr|rank{len(shape)}|axis{opt_s(axis)}|time-{ttok.split(':')[0]}")
+        if box:
+            xx = box[0]
+            case = {"wrap_xr": True, "line": line}
+            # crs_coord_name=None: the CRS travels only in the `crs` attribute of world-space axis labels (axis-aligned boxes)
+            want = g if (cn is not None or g.axis_aligned) else GeoBox(g.shape, g.affine, None)
+            R.oracle(xx.odc.geobox == want, "wrap-xr|accepted-args-roundtrip", case,
+                     f"wrap_xr accepted shape {shape}, time={ttok}, axis={axis} but .odc.geobox is {xx.odc.geobox!r}",
+                     sig=f"wrapxr|rank{len(shape)}")
+            R.oracle(tuple(xx.shape[xx.odc.ydim:xx.odc.ydim + 2]) == tuple(g.shape) and xx.odc.xdim == xx.odc.ydim + 1,
+                     "wrap-xr|spatial-axes", case, f"dims {xx.dims} shape {xx.shape}")
+    # xr_zeros
+    for _ in range(R.pick(40, 400)):
+        g = rng.choice(boxes)
+        ttok = rng.choice(["N", "N", "s:10", "l:1", "l:2", "l:3", "d:2"])
+        cn = rng.choice(["spatial_ref", "crs", None])
+        nodata = rng.random() < 0.4
+        attrs = [k for k in ("units", "keep") if rng.random() < 0.3]
+        dask = rng.random() < 0.3
+        line = f"c09 zeros {src_s(g)} {ttok} {opt_s(cn)} {'T' if nodata else 'F'} {list_s(attrs)}"
+
+        def f():
+            kw = {"nodata": rng.choice([0, 7])} if nodata else {}
+            ny, nx = g.shape
+            nt = None if ttok == "N" else (10 if ttok.startswith("s") else int(ttok.split(":")[1]))
+            chunks = None if not dask else ((1, ny, nx) if nt is not None else (ny, nx))
+            xx = oxr.xr_zeros(g, dtype="uint8", chunks=chunks, time=time_arg(ttok), crs_coord_name=cn, **kw, **{k: "v" for k in attrs})
+            return w_s(xx)
+
+        R.corr(line, f, sig=f"zeros|time-{ttok.split(':')[0]}" + ("|dask" if dask else ""))
+    # .odc.nodata
+    vals = {"-": "absent", "N": None, "0": 0, "7": 7, "-1/2": -0.5, "255": "255"}
+    for a in vals:
+        for b in vals:
+            def f():
+                attrs = {}
+                if a != "-":
+                    attrs["nodata"] = vals[a]
+                if b != "-":
+                    attrs["_FillValue"] = vals[b]
+                xx = oxr.wrap_xr(np.zeros((3, 4)), g0, **attrs)
+                v = xx.odc.nodata
+                return "N" if v is None else frac_s(v)
+
+            R.corr(f"c09 nodata {a} {b}", f, sig="nodata")
+    # Dataset.geobox / DataArray.geobox after register_geobox(): first data variable with a geobox
+    reg = getattr(oxr, "register_geobox", None)
+    if reg is None:
+        R.notes.append("odc.geo.xr.register_geobox not found: the `.geobox` compatibility property stream is skipped")
+        return
+    reg()
+    for _ in range(R.pick(30, 300)):
+        g = rng.choice(boxes)
+        order = [rng.choice("gn") for _ in range(rng.randint(0, 4))]
+        dims, sizes = sizes_of(g, None, None)
+        ops = rnd_ops(rng, dims, sizes, False, maxlen=2)
+        ops = [o for o in ops if o[0] != "i" and not (o[0] == "s" and o[4] == 0)]
+        line = f"c09 dsgeobox {src_s(g)} N N spatial_ref {list_s(ops, op_s)} {list_s(order)}"
+
+        def f():
+            arr = apply_ops(make_xx(oxr, g, None, None), ops)
+            dv = {}
+            for i, o in enumerate(order):
+                dv[f"v{i}"] = (arr * 2) if o == "g" else xr.DataArray(np.zeros(3), dims=("t",), coords={"t": ["u", "v", "w"]})
+            ds = xr.Dataset(dv)
+            return rec_s(ds.geobox)
+
+        R.corr(line, f, sig=f"dsgeobox|{''.join(order) or 'empty'}")
+
+
+
+# ------------------------------------------------------------------ recovery paths outside wrap_xr's own output
+def recovery_glue_part(R: Run, mods):
+    """(1) spatial coordinates dropped (arrays as rioxarray loads rotated / GCP sources): GeoTransform path of
+    _extract_transform; (2) grid_mapping looked up in encoding first, then attrs; (3) CRS found in `crs` / `crs_wkt`
+    attributes of the array, its spatial coordinates and the Dataset (_get_crs_from_attrs)."""
+    import warnings
+
+    import xarray as xr
+    from odc.geo.crs import CRS
+
+    Affine, GeoBox, GCPGeoBox, GCPMapping, oxr, xy_ = mods
+    rng = R.rng
+    kinds = ["north-up", "mirrored", "rotated", "sheared"] + (["gcp"] if gcp_private(gcp_geobox(__import__("random").Random(1), mods, exact=True)) is not None else [])
+    for _ in range(R.pick(60, 600)):
+        kind = rng.choice(kinds)
+        g = gcp_geobox(rng, mods, exact=True) if kind == "gcp" else exact_geobox(rng, Affine, GeoBox, kind)
+        nt = rng.choice([None, None, 2])
+        nb = rng.choice([None, None, 3])
+        cn = rng.choice(["spatial_ref", "crs", "foo"])
+        dims, sizes = sizes_of(g, nt, nb)
+        ops = rnd_ops(rng, dims, sizes, False, maxlen=3) if rng.random() < 0.6 else []
+        ops = [o for o in ops if not (o[0] == "s" and o[4] == 0)]
+        idx = orig_index(ops, dims, sizes)
+        if any(v is not None and len(v) == 0 for v in idx.values()):
+            ops = []  # empty arrays: nothing to locate
+        yd, xd = g.dimensions
+        drop = rng.choice([[yd, xd], [yd, xd], [xd], [yd], [xd, yd]])
+        line = f"c09 rtdrop {src_s(g)} {opt_s(nt)} {opt_s(nb)} {cn} {list_s(ops, op_s)} {list_s(drop)}"
+        box = []
+
+        def f():
+            yy = apply_ops(make_xx(oxr, g, nt, nb, rng.random() < 0.2, cn=cn), ops).drop_vars(drop)
+            box.append(yy)
+            return rec_s(yy.odc.geobox)
+
+        R.corr(line, f, sig=f"rtdrop|{klass(g)}|{'crs' if g.crs is not None else 'nocrs'}|drop{len(drop)}|ops{min(len(ops), 2)}")
+        if box and not ops and g.crs is not None and kind != "gcp":
+            # without a history the stored GeoTransform is the grid of the array: the original GeoBox comes back,
+            # rotated ones included
+            r = box[0].odc.geobox
+            R.oracle(r == g, "dropped-coords|roundtrip", {"line": line}, f"coordinates dropped right after wrap_xr: recovered {r!r}, original {g!r}")
+    # (2) grid_mapping: encoding first, then attrs
+    g = GeoBox((3, 4), Affine(2, 0, 10, 0, -2, 20), None)
+    names = {"a": "EPSG:3857", "b": "EPSG:4326"}
+    for enc in (None, "a", "b"):
+        for att in (None, "a", "b"):
+            def f():
+                xx = oxr.wrap_xr(np.zeros((3, 4)), g)
+                for nm, spec in names.items():
+                    xx = oxr.assign_crs(xx, spec, crs_coord_name=nm)
+                xx.encoding.pop("grid_mapping", None)
+                if enc is not None:
+                    xx.encoding["grid_mapping"] = enc
+                if att is not None:
+                    xx.attrs["grid_mapping"] = att
+                if enc is None and att is None:
+                    return "N"  # both CRS coordinates are candidates (first wins, with a warning): not this stream
+                c = xx.odc.crs
+                return next((nm for nm, spec in names.items() if c == CRS(spec)), "?")
+
+            R.corr(f"c09 gm {opt_s(enc)} {opt_s(att)}", f, sig="grid-mapping-lookup")
+    # (3) CRS in attributes
+    vals = {"-": None, "e": "bogus-crs-text", "o": 42, "s3857": "EPSG:3857", "s4326": "EPSG:4326", "c3857": CRS("EPSG:3857"), "c32633": CRS("EPSG:32633")}
+    toks = sorted(vals)
+
+    def rnd_dict(p_some):
+        return tuple(rng.choice(toks[1:]) if rng.random() < p_some else "-" for _ in range(2))
+
+    def put(attrs, d):
+        for key, t in zip(("crs", "crs_wkt"), d):
+            if t != "-":
+                attrs[key] = vals[t]
+
+    for _ in range(R.pick(80, 800)):
+        as_ds = rng.random() < 0.4
+        single = rng.random() < 0.7
+        one = rng.choice(["s3857", "c3857", "s4326", "c32633"])
+
+        def pick():
+            d = rnd_dict(0.35)
+            if single:  # every candidate names the same CRS (or is junk)
+                d = tuple((t if t in ("-", "e", "o") else rng.choice([x for x in toks if x[1:] == one[1:]])) for t in d)
+            return d
+
+        nvars = rng.randint(1, 2) if as_ds else 1
+        dicts_ds = pick() if as_ds else None
+        per_var = [(pick(), pick(), pick()) for _ in range(nvars)]  # (array attrs, y coord attrs, x coord attrs)
+        have_coord = [(rng.random() < 0.85, rng.random() < 0.85) for _ in range(nvars)]
+        seq = ([dicts_ds] if as_ds else [])
+        for (da, dy, dx), (hy, hx) in zip(per_var, have_coord):
+            seq += [da] + ([dy] if hy else []) + ([dx] if hx else [])
+        if as_ds:
+            # coordinates are shared by the variables of a Dataset: the same y / x attrs are seen for each variable
+            dy0, dx0 = per_var[0][1], per_var[0][2]
+            hy0, hx0 = have_coord[0]
+            seq = [dicts_ds]
+            for (da, _, _) in per_var:
+                seq += [da] + ([dy0] if hy0 else []) + ([dx0] if hx0 else [])
+        line = "c09 crsattrs " + list_s([f"{a};{b}" for a, b in seq])
+        cand = sorted({int(t[1:]) for d in seq for t in d if t[0] in "sc"})
+        res = []
+
+        def build():
+            gb = GeoBox((3, 4), Affine(2, 0, 10, 0, -2, 20), None)
+            arrs = []
+            for (da, dy, dx), (hy, hx) in zip(per_var, have_coord):
+                xx = oxr.wrap_xr(np.zeros((3, 4)), gb)
+                put(xx.attrs, da)
+                arrs.append(xx)
+            hy, hx = have_coord[0]
+            dy, dx = per_var[0][1], per_var[0][2]
+            if as_ds:
+                obj = xr.Dataset({f"v{i}": a for i, a in enumerate(arrs)})
+                put(obj.attrs, dicts_ds)
+            else:
+                obj = arrs[0]
+            put(obj.coords["y"].attrs, dy)
+            put(obj.coords["x"].attrs, dx)
+            drop = [n for n, h in (("y", hy), ("x", hx)) if not h]
+            return obj.drop_vars(drop) if drop else obj
+
+        def f():
+            with warnings.catch_warnings(record=True) as wl:
+                warnings.simplefilter("always")
+                c = build().odc.crs
+            several = any("several candidates" in str(w.message) for w in wl)
+            res.append((c, several))
+            if len(cand) > 1:
+                return list_s(cand)  # arbitrary pick: judged by the oracle below
+            return "[]" if c is None else list_s([c.epsg])
+
+        R.corr(line, f, sig=f"crsattrs|{'ds' if as_ds else 'da'}|n{min(len(cand), 2)}")
+        if res and len(cand) > 1:
+            c, several = res[0]
+            R.oracle(c is not None and c.epsg in cand and several, "crs-from-attrs|several-candidates", {"line": line},
+                     f"candidates {cand}: picked {None if c is None else c.epsg}, warned={several}")
+
+
+# ------------------------------------------------------------------ xr_reproject(src, <crs>, **options): C09 x C11
+_ABSENT = object()
+
+
+def dyadic_src(rng, Affine, GeoBox, crs, kinds=("nup", "nup", "mirror", "turned")):
+    """small source with dyadic numbers inside the valid area of every destination used"""
+    ny, nx = rng.choice([4, 6, 9]), rng.choice([5, 8])
+    if crs == "EPSG:4326":
+        r, x0, y0 = rng.choice([0.25, 0.5, 0.125]), 14 + rng.randint(0, 8) * 0.25, 50 - rng.randint(0, 8) * 0.25
+    elif crs == "EPSG:32633":
+        r, x0, y0 = rng.choice([1024, 4096]), 400000 + 512 * rng.randint(0, 50), 5500000 - 512 * rng.randint(0, 50)
+    else:  # EPSG:3857
+        r, x0, y0 = rng.choice([2048, 8192]), 1600000 + 1024 * rng.randint(0, 40), 6500000 - 1024 * rng.randint(0, 40)
+    k = rng.choice(kinds)
+    if k == "mirror":
+        A = Affine(-r, 0, x0 + r * nx, 0, -r, y0)
+    elif k == "turned":
+        A = Affine(0, r, x0, r, 0, y0 - r * nx)
+    else:
+        A = Affine(r, 0, x0, 0, -r, y0)
+    return GeoBox((ny, nx), A, crs)
+
+
+def res_arg_s(v) -> str:
+    from odc.geo.types import Resolution
+
+    if v is _ABSENT:
+        return "-"
+    if isinstance(v, str):
+        return f"s:{v}"
+    if isinstance(v, Resolution):
+        return f"r:{frac_s(v.x)}:{frac_s(v.y)}"
+    if isinstance(v, (int, float)) and not isinstance(v, bool):
+        return f"n:{frac_s(v)}"
+    return "o"
+
+
+def grid_kw_of(c11, c11mods, choice):
+    """`choice`: option name -> value (or _ABSENT) -> (kwargs for the real call, tokens for the model); anchors are given
+    canonically and spelled in one of the ways `_norm_anchor` accepts"""
+    xy_, AnchorEnum = c11mods[8], c11mods[9]
+    kw, tok = {}, {}
+    v = choice.get("resolution", _ABSENT)
+    tok["resolution"] = res_arg_s(v)
+    if v is not _ABSENT:
+        kw["resolution"] = v
+    v = choice.get("shape", _ABSENT)
+    tok["shape"] = "-" if v is _ABSENT else c11.shape_s(v)
+    if v is not _ABSENT:
+        kw["shape"] = v
+    v = choice.get("tight", _ABSENT)
+    tok["tight"] = "-" if v is _ABSENT else ("T" if v else "F")
+    if v is not _ABSENT:
+        kw["tight"] = v
+    v = choice.get("anchor", _ABSENT)
+    tok["anchor"] = "-" if v is _ABSENT else c11.anchor_s(v)
+    if v is not _ABSENT:
+        kw["anchor"] = c11.anchor_py(v, xy_, AnchorEnum)
+    v = choice.get("tol", _ABSENT)
+    tok["tol"] = "-" if v is _ABSENT else frac_s(v)
+    if v is not _ABSENT:
+        kw["tol"] = v
+    v = choice.get("round_resolution", _ABSENT)
+    tok["round_resolution"] = "-" if v is _ABSENT else c11.rnd_s(v)
+    if v is not _ABSENT:
+        kw["round_resolution"] = v
+    toks = " ".join(tok[k] for k in ("resolution", "shape", "tight", "anchor", "tol", "round_resolution"))
+    return kw, toks
+
+
+def grid_kw(rng, c11, c11mods, base, same_units, allow_shape=True):
+    """a random subset of the six grid options in random Python spellings"""
+    from odc.geo.types import resxy_
+
+    p2 = 2.0 ** round(math.log2(base))
+    r = p2 * rng.choice([0.5, 1, 2, 4])
+    res_pool = ["auto", "auto", "fit", r, r, resxy_(r, -r), resxy_(r, -r * 2), resxy_(r, r), np.float64(r), "AUTO", "Fit", "bogus", (r, -r),
+                np.int64(max(1, int(r)))]
+    if same_units:
+        res_pool += ["same", "same"]
+    if r >= 1:
+        res_pool += [int(r)]
+    choice = {
+        "resolution": rng.choice([_ABSENT, _ABSENT] + res_pool),
+        "shape": rng.choice([_ABSENT] * 8 + [None, None] + ([(3, 5), 7, (1, 1)] if allow_shape else [])),
+        "tight": rng.choice([_ABSENT, _ABSENT, False, True, False]),
+        "anchor": rng.choice([_ABSENT, _ABSENT, "default", "edge", "center", "floating", (0.25, 0.75), (0.5, 0.0)]),
+        "tol": rng.choice([_ABSENT, _ABSENT, 0, 0.0, 0.125, 0.01, 2.0 ** -7]),
+        "round_resolution": rng.choice([_ABSENT, _ABSENT, _ABSENT, None, False, True]),
+    }
+    return grid_kw_of(c11, c11mods, choice)
+
+
+def proj_tokens(c11, gb, how, spy, subst):
+    """what pyproj contributes to one output_geobox call, as driver tokens: dst crs, same-units, source resolution witness,
+    footprint bbox, centre-pixel box, fit scale"""
+    from odc.geo.crs import CRS
+
+    if gb is None or gb.crs is None:
+        dc = CRS(how) if not str(how).lower().startswith("utm") else CRS("EPSG:32633")
+        return f"{crs_s(dc)} F 1,-1 0,0,1,1 0,0,1,1 1,1", dc
+    # the footprint box through the PUBLIC route (what compute_output_geobox is documented to start from)
+    bbox = gb.footprint(how, buffer=0.9, npoints=100).boundingbox
+    dc = bbox.crs
+    rot = gb.resolution
+    cp = f"0,0,{frac_s(subst[0])},{frac_s(subst[1])}" if spy.cp is not None else "0,0,1,1"
+    fs = spy.scale if spy.scale is not None else (1, 1)
+    return (f"{crs_s(dc)} {'T' if gb.crs.units == dc.units else 'F'} {c11.pair_s((rot.x, rot.y))} "
+            f"{','.join(frac_s(v) for v in bbox.bbox)} {cp} {c11.pair_s(fs)}"), dc
+
+
+def reproject_crs_part(R: Run, mods):
+    """`xr_reproject(src, crs, **options)` / `.odc.reproject` / `.odc.output_geobox` from the arguments to the assembled
+    result: the model computes the destination grid (C11 model, pyproj-derived inputs captured by the spies of
+    harness/c11.py) from the geobox it recovers from the source array, then assembles and recovers again.
+    Two generators: a random one (ranks, histories, attrs, names, dask, spellings, extra keywords) and the OPTION MATRIX
+    tight x anchor kind x resolution kind x shape x {own CRS, other CRS} for DataArray and Dataset."""
+    import itertools
+
+    import xarray as xr
+    from odc.geo.crs import CRS
+    from odc.geo.types import resxy_
+
+    from . import c11
+
+    Affine, GeoBox, GCPGeoBox, GCPMapping, oxr, xy_ = mods
+    c11mods = c11._import()
+    if c11._ARNG[0] is None:
+        c11._ARNG[0] = __import__("random").Random(R.rng.getrandbits(32))
+    rng = R.rng
+    crss = ["EPSG:4326", "EPSG:32633", "EPSG:3857"]
+
+    def spell(crs):
+        if crs.lower().startswith("utm"):
+            return crs
+        return rng.choice([crs, crs.lower(), int(crs.split(":")[1]), CRS(crs)])
+
+    def units_of(dst):
+        return (CRS(dst) if not dst.lower().startswith("utm") else CRS("EPSG:32633")).units
+
+    def one(kind, src, own, dst, nt, nb, ops, cn, attrs, dask, kw, gtoks, base, extra, etoks, dst_nodata, post, dsattrs, extra_var, tag,
+            arr=None, light=False):
+        how = spell(dst)
+        attr_keys = list(attrs)
+        try:
+            if arr is None:
+                arr = apply_ops(make_xx(oxr, src, nt, nb, dask, dtype="float32", cn=cn, **attrs), ops)
+            gb = arr.odc.geobox
+        except Exception as e:  # pylint: disable=broad-except
+            R.oracle(False, "reproject|to-crs|setup-raises", {"src": src_s(src), "dst": dst, "ops": list_s(ops, op_s)}, repr(e))
+            return
+        # the affine is compared exactly unless it is not exact in doubles: shape requests (span / n) and, once the grid goes
+        # through the label round trip of the assembled result, origins taken verbatim from the pyproj footprint (tight / floating)
+        full = kw.get("shape") is None and (kind == "og" or not (kw.get("tight") or "floating" in str(kw.get("anchor")).lower()))
+        p2 = 2.0 ** round(math.log2(base))
+        subst = (p2 * rng.choice([1, 2]), p2 * rng.choice([1, 2, 0.5]), rng.choice([1.0, 2.0, 0.5]), rng.choice([1.0, 2.0]))
+        case = {"reproject": "args->result", "kind": kind, "src": src_s(src), "how": str(how)[:40], "how_type": type(how).__name__, "nt": nt, "nb": nb,
+                "ops": list_s(ops, op_s), "attrs": attr_keys, "crs_coord_name": cn, "kw": {k: str(v) for k, v in kw.items()},
+                "extra": {k: str(v) for k, v in extra.items()}, "dst_nodata": dst_nodata, "dask": dask, "generator": tag}
+        box = []
+        via_accessor = rng.random() < 0.5
+        if not light:
+            cache_history(rng, src.crs, dst if not dst.lower().startswith("utm") else "EPSG:32633")
+        real = None
+        with c11.Spy(c11mods, subst) as spy:
+            try:
+                if kind == "og":
+                    out = arr.odc.output_geobox(how, **kw)
+                    box.append(out)
+                    real = rec_s(out) if full else rec_noaff_s(out)
+                elif kind == "da":
+                    akw = dict(kw, **extra) if dst_nodata is None and rng.random() < 0.5 else dict(kw, dst_nodata=dst_nodata, **extra)
+                    out = arr.odc.reproject(how, **akw) if via_accessor else oxr.xr_reproject(arr, how, **akw)
+                    box.append(out)
+                    real = out_s(apply_ops(out, post), full)
+                else:
+                    dv = {"a": arr, "b": arr * 2}
+                    if extra_var:
+                        dv["c"] = xr.DataArray(np.zeros(3), dims=("t",), coords={"t": ["u", "v", "w"]})
+                    ds = xr.Dataset(dv, attrs={k: (cn if k == "grid_mapping" else "stale") for k in dsattrs})
+                    out = ds.odc.reproject(how, **kw, **extra) if via_accessor else oxr.xr_reproject(ds, how, **kw, **extra)
+                    box.append(out)
+                    real = ds_s(out) if full else "noaff " + " ".join(f"{nm}={rec_noaff_s(out[nm].odc.geobox)}" for nm in ("a", "b"))
+            except Exception as e:  # pylint: disable=broad-except
+                from .common import err_s
+
+                real = err_s(e)
+                case["raised"] = repr(e)[:160]
+        try:
+            ptoks, dc = proj_tokens(c11, gb, how, spy, subst)
+        except Exception as e:  # pylint: disable=broad-except
+            R.oracle(False, "reproject|to-crs|capture-raises", case, repr(e))
+            return
+        head = f"{src_s(src)} {opt_s(nt)} {opt_s(nb)} {cn} {list_s(ops, op_s)}"
+        if kind == "og":
+            line = f"c09 outgbx {head} {ptoks} {gtoks} {'T' if full else 'F'}"
+        elif kind == "da":
+            line = (f"c09 reprcrs {head} {list_s(attr_keys)} N {ptoks} {gtoks} {list_s(etoks)} {'T' if dst_nodata is not None else 'F'} "
+                    f"{list_s(post, op_s)} {'T' if full else 'F'}")
+        else:
+            line = (f"c09 reprcrsds {head} {list_s(attr_keys)} {list_s(dsattrs)} {cn if 'grid_mapping' in dsattrs else 'N'} "
+                    f"{'T' if extra_var else 'F'} N {ptoks} {gtoks} {list_s(etoks)} {'T' if full else 'F'}")
+        case["line"] = line
+        path = ("err" if real.startswith("ERR") else "own-crs" if own else "x-crs")
+        optsig = ("tight" if kw.get("tight") else "snap") + "+" + (c11.anchor_s(kw["anchor"]).split(":")[0] if False else
+                                                                    ("anchor" if "anchor" in kw else "noanchor"))
+        sig = (f"{'outgbx' if kind == 'og' else 'reprcrs|' + kind}|{tag}|{klass(src)}|{path}|{optsig}"
+               + ("|fit" if spy.cp is not None else "") + ("|shape" if kw.get("shape") is not None else "") + ("" if kw else "|defaults"))
+        res_kw = kw.get("resolution", "auto")
+        fit_expected = (gb is not None and gb.crs is not None and kw.get("shape") is None
+                        and not (box and kind == "og" and box[0] is gb)
+                        and (res_kw == "fit" or (isinstance(res_kw, str) and res_kw == "auto" and not c11.share_units(gb.crs, dc))))
+        if fit_expected and not (spy.fit_recorded() if box else c11.fit_interception_works(c11mods)):
+            # the centre-pixel fit did not run through the public names the spy substitutes: no exact comparison
+            R.count("reproject-args:skipped-fit-not-intercepted")
+            if not any("fit not intercepted" in n for n in R.notes):
+                R.notes.append("fit not intercepted through GeoBox.from_bbox / overlap.get_scale_at_point: exact comparison of "
+                               "fit-mode reprojection requests skipped, oracles kept")
+        else:
+            R.corr(line, lambda: real, sig=sig)
+        # independent oracle on the real result: the recovered GeoBox of the reprojected object is the grid that
+        # `.odc.output_geobox(how, **same options)` describes (same spies: same centre-pixel substitutes)
+        if box and kind != "og":
+            try:
+                with c11.Spy(c11mods, subst):
+                    want = arr.odc.output_geobox(how, **kw)
+                reproject_oracle(R, box[0], want, case, f"{kind}|args", approx=True)
+                if kind == "ds":
+                    reproject_oracle(R, box[0]["b"], want, case, f"{kind}|args|var", approx=True)
+            except Exception as e:  # pylint: disable=broad-except
+                R.oracle(False, f"reproject|{kind}|args|oracle-raises", case, repr(e))
+        elif box and kind == "og" and gb is not None:
+            out = box[0]
+            R.oracle(out.crs == dc, "output-geobox|crs", case, f"output_geobox({how!r}) is in {out.crs}, expected {dc}")
+            if isinstance(kw.get("shape"), tuple):
+                R.oracle(tuple(out.shape) == kw["shape"], "output-geobox|shape-request", case, f"asked {kw['shape']} got {tuple(out.shape)}")
+
+    # ---- (1) random generator
+    n_da, n_ds, n_og = R.pick(30, 400), R.pick(12, 160), R.pick(100, 1200)
+    for it in range(n_da + n_ds + n_og):
+        kind = "da" if it < n_da else "ds" if it < n_da + n_ds else "og"
+        scrs = rng.choice(crss)
+        src = dyadic_src(rng, Affine, GeoBox, scrs)
+        if kind == "og" and rng.random() < 0.12:
+            src = GeoBox(src.shape, src.affine, None)  # not reprojectable: assert / ValueError branches
+        own = rng.random() < 0.35
+        dst = scrs if own else rng.choice([c for c in crss if c != scrs] + (["utm", "UTM-N", "utm-s"] if scrs != "EPSG:32633" else ["utm"]))
+        nt = rng.choice([None, None, 2])
+        nb = rng.choice([None, None, 2])
+        dims, sizes = sizes_of(src, nt, nb)
+        ops = rnd_ops(rng, dims, sizes, False, maxlen=3)
+        ops = [o for o in ops if o[0] != "i" and not (o[0] == "s" and o[4] == 0)]
+        idx = orig_index(ops, dims, sizes)
+        if any(v is None or len(v) == 0 for v in idx.values()):
+            ops = []
+        cn = rng.choice(["spatial_ref", "spatial_ref", "crs", "foo"])
+        attrs = {k: v for k, v in (("crs", "stale"), ("grid_mapping", cn), ("epsg", 1), ("nodata", 0), ("_FillValue", 0))
+                 if rng.random() < 0.4}
+        attrs["keep"] = "me"
+        dask = rng.random() < 0.25
+        try:
+            arr = apply_ops(make_xx(oxr, src, nt, nb, dask, dtype="float32", cn=cn, **attrs), ops)
+            gb = arr.odc.geobox
+            base = abs(arr.odc.output_geobox(dst).resolution.x) if (gb is not None and gb.crs is not None) else 1024.0
+        except Exception as e:  # pylint: disable=broad-except
+            R.oracle(False, "reproject|to-crs|setup-raises", {"src": src_s(src), "dst": dst, "ops": list_s(ops, op_s)}, repr(e))
+            continue
+        same_units = gb is not None and gb.crs is not None and gb.crs.units == units_of(dst)
+        kw, gtoks = grid_kw(rng, c11, c11mods, base, same_units, allow_shape=True)
+        if rng.random() < 0.12:
+            kw, gtoks = {}, "- - - - - -"  # no option passed at all: every default comes from the code
+        extra, etoks = {}, []
+        if kind != "og":
+            v = rng.choice([_ABSENT, _ABSENT, None, 0, 255])
+            if v is not _ABSENT:
+                extra["src_nodata"] = v
+                etoks.append("src_nodata=" + ("none" if v is None else f"num:{v}"))
+            if rng.random() < 0.3:
+                extra["num_threads"] = 2
+                etoks.append("num_threads=num:2")
+            if rng.random() < 0.5:
+                etoks.reverse()
+                extra = dict(reversed(list(extra.items())))
+        dst_nodata = rng.choice([None, None, 7]) if kind == "da" else None
+        post = [rng.choice([("arith",), ("type",), ("pickle", rng.choice(RT_KINDS), rng.random() < 0.6)]) for _ in range(rng.choice([0, 0, 1]))] if kind == "da" else []
+        dsattrs = [k for k in ("crs", "title", "grid_mapping") if rng.random() < 0.4] if kind == "ds" else []
+        one(kind, src, own, dst, nt, nb, ops, cn, attrs, dask, kw, gtoks, base, extra, etoks, dst_nodata, post, dsattrs, rng.random() < 0.5,
+            "random", arr=arr)
+
+    # ---- (2) the option matrix: tight x anchor kind x resolution kind x shape, own CRS and another CRS, DataArray and Dataset.
+    # Own CRS: the whole matrix (the neighbourhood of the identity fast path — resolution in {absent, auto, same}, shape in
+    # {absent, None} — for BOTH container types, the rest alternating; quick tier: every second of the rest, rotating with
+    # the seed).  Other CRS: an orthogonal sample (every tight x anchor pair, resolution / shape cycling).
+    tights = [_ABSENT, False, True]
+    anchors = [_ABSENT, "default", "edge", "center", "floating", (0.25, 0.75), (0.25, 0.25)]
+    shapes = [_ABSENT, None, (3, 5), 7]
+    srcs = {c: dyadic_src(rng, Affine, GeoBox, c, kinds=(k,)) for c, k in (("EPSG:4326", "nup"), ("EPSG:32633", "mirror"), ("EPSG:3857", "nup"))}
+    arrs = {c: make_xx(oxr, g, None, None, False, dtype="float32", keep="me") for c, g in srcs.items()}
+    n_own = n_x = 0
+    for i, (t, a, ri, sh) in enumerate(itertools.product(tights, anchors, range(6), shapes)):
+        scrs = crss[i % 3]
+        src = srcs[scrs]
+        r = abs(src.resolution.x) * [1, 2, 0.5][(i // 3) % 3]
+        resolution = [_ABSENT, "auto", "same", "fit", r, resxy_(r, -r)][ri]
+        near_fast_path = ri <= 2 and sh in (_ABSENT, None)
+        if not near_fast_path and R.quick and (i + R.seed) % 2:
+            continue
+        kw, gtoks = grid_kw_of(c11, c11mods, {"tight": t, "anchor": a, "resolution": resolution, "shape": sh})
+        for kind in (("da", "ds") if near_fast_path else (("da", "ds")[i % 2],)):
+            one(kind, src, True, scrs, None, None, [], "spatial_ref", {"keep": "me"}, False, kw, gtoks, abs(src.resolution.x), {}, [], None, [],
+                [], False, "matrix", arr=arrs[scrs], light=True)
+            n_own += 1
+    rounds = R.pick(2, 12)
+    for rd in range(rounds):
+        for i, (t, a) in enumerate(itertools.product(tights, anchors)):
+            scrs = crss[(i + rd) % 3]
+            dst = crss[(i + rd + 1 + (i // 3) % 2) % 3]
+            src = srcs[scrs]
+            try:
+                base = abs(arrs[scrs].odc.output_geobox(dst).resolution.x)
+            except Exception:  # pylint: disable=broad-except
+                continue
+            r = 2.0 ** round(math.log2(base)) * [1, 2, 0.5][(i + rd) % 3]
+            same_units = src.crs.units == units_of(dst)
+            res_vals = [_ABSENT, "auto", "fit", r, resxy_(r, -r)] + (["same"] if same_units else [])
+            resolution = res_vals[(i + 2 * rd) % len(res_vals)]
+            sh = shapes[(i // 2 + rd) % 4]
+            kw, gtoks = grid_kw_of(c11, c11mods, {"tight": t, "anchor": a, "resolution": resolution, "shape": sh})
+            one(("da", "ds")[(i + rd) % 2], src, False, dst, None, None, [], "spatial_ref", {"keep": "me"}, False, kw, gtoks, base, {}, [], None, [],
+                [], False, "matrix", arr=arrs[scrs], light=True)
+            n_x += 1
+    R.count("reproject-args:option-matrix-own-crs", n_own)
+    R.count("reproject-args:option-matrix-other-crs", n_x)
+
+
 def val_s(v) -> str:
     if v is None:
         return "N"
@@ -759,14 +1435,18 @@ def options_part(R: Run, mods):
     pools = {"tol": [0, 0.0, 0.01, 0.2], "tight": [False, True], "anchor": [0, 0.5, "default", "center"],
              "shape": [None, 0, 7, (3, 4)], "resolution": ["auto", 0, 30, 0.0], "round_resolution": [None, False, True],
              "src_nodata": [None, 0, 255], "num_threads": [0, 2], "XSCALE": [0.0, 1.5]}
-    for _ in range(R.pick(120, 1200)):
+    splitter = getattr(xi, "_extract_output_geobox_params", None)
+    if splitter is None:
+        R.notes.append("_xr_interop._extract_output_geobox_params (private helper) not found: its direct correspondence stream is "
+                       "skipped; option forwarding stays covered end to end through xr_reproject / .odc.reproject")
+    for _ in range(R.pick(120, 1200) if splitter is not None else 0):
         keys = rng.sample(sorted(pools), rng.randint(0, len(pools)))
         kw = {k: rng.choice(pools[k]) for k in keys}
         line = "c09 params " + list_s([f"{k}={val_s(v)}" for k, v in kw.items()])
 
         def f():
             rest = dict(kw)
-            fwd = xi._extract_output_geobox_params(rest)
+            fwd = splitter(rest)
             return (list_s(sorted(f"{k}={val_s(v)}" for k, v in fwd.items())) + " "
                     + list_s(sorted(f"{k}={val_s(v)}" for k, v in rest.items())))
 
